@@ -1,7 +1,13 @@
 from .harness import Mutant, edit_node, stmt_containing, compound_containing, to_pass, sub, is_call
 import ast
 F = 'src/pharmpy/model/statements.py'
+def text_edit(old, new):
+    def edit(src):
+        return src.replace(old, new, 1) if old in src else None
+    return edit
 MUTANTS = [
+    Mutant('additional_not_closed', 'src/pharmpy/model/statements.py', text_edit("            additional |= set(nx.dfs_preorder_nodes(graph, add))", "            additional |= set(graph.successors(add))"), 'D6', 'one level only'),
+    Mutant('users_after_only', 'src/pharmpy/model/statements.py', text_edit("if up != removed_ind and up not in candidates and down in candidates", "if up > removed_ind and down in candidates"), 'D7', 'users before the edited statement ignored'),
     Mutant('bolus_raw_amount', F, edit_node('Bolus.free_symbols', lambda n, seg: isinstance(n, ast.Return), lambda seg: 'return {self._amount}'), 'D1', 'expression instead of its symbols'),
     Mutant('infusion_forgets_amount', F, edit_node('Infusion.free_symbols', lambda n, seg: isinstance(n, ast.Return), lambda seg: 'return symbs'), 'D1', 'amount not consulted'),
     Mutant('compartment_subs_forgets_lag', F, edit_node('Compartment.subs', lambda n, seg: isinstance(n, ast.keyword) and n.arg == 'lag_time', lambda seg: 'lag_time=self._lag_time'), 'D1', 'lag time not substituted'),
